@@ -30,8 +30,9 @@ def mk_bp_gens(cap=None):
     return Struct("generators::BulletproofGens", {"gens_capacity": IntV(cap), "party_capacity": IntV(parties), "G_vec": G, "H_vec": H})
 
 
-def mk_proof(lg=None, tag=""):
-    lg = lg if lg is not None else isym("lg")
+def mk_proof(lg=None, tag="", lgR=None):
+    lg = lg if lg is not None else isym("lg" + tag)
+    lgR = lgR if lgR is not None else isym("lgR" + tag)
     f = {}
     for n in ("A_I1", "A_O1", "S1", "A_I2", "A_O2", "S2", "T_1", "T_3", "T_4", "T_5", "T_6"):
         f[n] = Pt.atom(ssym("pf." + n + tag))
@@ -39,7 +40,7 @@ def mk_proof(lg=None, tag=""):
         f[n] = Sc(ssym("pf." + n + tag))
     ipp = Struct(
         "inner_product_proof::InnerProductProof",
-        {"L_vec": pt_vec("pf.L" + tag, lg), "R_vec": pt_vec("pf.R" + tag, lg), "a": Sc(ssym("pf.a" + tag)), "b": Sc(ssym("pf.b" + tag))},
+        {"L_vec": pt_vec("pf.L" + tag, lg), "R_vec": pt_vec("pf.R" + tag, lgR), "a": Sc(ssym("pf.a" + tag)), "b": Sc(ssym("pf.b" + tag))},
     )
     f["ipp_proof"] = ipp
     return Struct("r1cs::proof::R1CSProof", f)
